@@ -44,6 +44,7 @@ Poisons == {
   P("bolt", "noise", "any", "down"),
   P("bolt", "upstream-garbage-response", "undecodable", "up"),
   P("bolt", "upstream-dangling-response", "undecodable", "up"),
+  P("c08x", "decoder-panics", "panic", "down"),          \* a codec plug-in of the driver whose Decode panics
   P("dubbothrift", "frame-minus-2-bytes", "incomplete", "down"),
   P("dubbothrift", "outer-length-zero", "any", "down"),
   P("http1", "not-http", "undecodable", "down"),
